@@ -1,6 +1,6 @@
 (* C14 — property theorems only.  Proofs are one `exact`. *)
-From Coq Require Import List ZArith.
-From RD Require Import C15.Prim C15.PL C15.Disc C14.Wire C14.Model C14.NumSetProofs C14.Proofs C14.Oracle C14.Builder.
+From Coq Require Import List ZArith Sorted.
+From RD Require Import C15.Prim C15.PL C15.Disc C14.Wire C14.Model C14.NumSetProofs C14.NumRawProofs C14.Proofs C14.Oracle C14.Builder.
 Import ListNotations.
 Open Scope Z_scope.
 
@@ -87,6 +87,93 @@ Theorem C14_numset_roundtrip : forall k e s rest,
   ns_wf k s -> dec_ns k e (enc_ns k e s ++ rest) = Some (s, rest).
 Proof. exact ns_roundtrip. Qed.
 Print Assumptions C14_numset_roundtrip.
+
+(* ---- number sets as they arrive on the wire ----------------------------------------------- *)
+(* The accessors of a NumberSet (NumberSetIter::next / next_back as written, is_empty) over
+   ARBITRARY bitmap words: dirty padding after numBits, any word content.  `ns_shape s` is
+   0 <= numBits and at least ceil(numBits / 32) words, which every set the reader accepts
+   (`ns_accepted`: numBits <= 256 and exactly that many words) and every constructor result has.
+   ns_collect = iter().collect(), ns_collect_rev = iter().rev().collect(), IOk = no panic;
+   bit i of the set = word i / 32, bit 31 - i % 32 (ns_bit). *)
+Theorem C14_numset_wire_accepted : forall k e base bits words extra s rest,
+  dec_ns k e (enc_ns k e (NS base bits words) ++ extra) = Some (s, rest) -> ns_accepted s.
+Proof. exact dec_ns_raw_accepted. Qed.
+Theorem C14_numset_accepted_shape : forall s, ns_accepted s -> ns_shape s.
+Proof. exact accepted_shape. Qed.
+
+(* never a member outside the window *)
+Theorem C14_numset_iter_window : forall k s l,
+  ns_shape s -> ns_collect k s = IOk l ->
+  forall m, In m l -> ns_base s <= m < ns_base s + ns_bits s.
+Proof. exact numset_iter_window. Qed.
+
+(* membership is exactly the in-window bits, in strictly ascending order *)
+Theorem C14_numset_iter_exact : forall k s l,
+  ns_shape s -> ns_collect k s = IOk l ->
+  StronglySorted Z.lt l /\
+  forall m, In m l <->
+            ns_base s <= m < ns_base s + ns_bits s /\ ns_bit (ns_words s) (m - ns_base s) = true.
+Proof. exact numset_iter_exact. Qed.
+
+(* backward iteration is the reverse of forward iteration (and panics exactly when it does) *)
+Theorem C14_numset_iter_rev : forall k s,
+  ns_shape s ->
+  ns_collect_rev k s = match ns_collect k s with IOk l => IOk (rev l) | r => r end.
+Proof. exact numset_iter_rev. Qed.
+
+(* is_empty() is true iff no bit below numBits is set *)
+Theorem C14_numset_is_empty : forall k s b,
+  ns_shape s -> ns_is_empty k s = Some b ->
+  (b = true <-> forall i, 0 <= i < ns_bits s -> ns_bit (ns_words s) i = false).
+Proof. exact numset_is_empty. Qed.
+
+(* mixing next() and next_back() on one iterator visits every member exactly once *)
+Theorem C14_numset_iter_alt : forall k s out,
+  ns_shape s -> ns_collect_alt k s = IOk out ->
+  ns_collect k s = IOk (fronts true out ++ rev (fronts false out)).
+Proof. exact numset_iter_alt. Qed.
+
+(* the accessors answer: the model's fuel never runs out; a panic (debug-build overflow of
+   bit + base) needs an in-window member above the maximum of the number type; a window inside the
+   number type excludes it *)
+Theorem C14_numset_iter_total : forall k s,
+  ns_shape s ->
+  ns_collect k s <> IFuel /\ ns_collect_rev k s <> IFuel /\ ns_collect_alt k s <> IFuel /\
+  (ns_collect k s = IPanic <-> exists m, In m (members s) /\ n_hi k < m) /\
+  (ns_collect_alt k s = IPanic <-> exists m, In m (members s) /\ n_hi k < m) /\
+  (ns_is_empty k s = None -> exists m, In m (members s) /\ n_hi k < m) /\
+  (ns_bits s = 0 \/ ns_base s + ns_bits s - 1 <= n_hi k ->
+   exists l b, ns_collect k s = IOk l /\ ns_collect_rev k s = IOk (rev l) /\ ns_is_empty k s = Some b).
+Proof. exact numset_iter_total. Qed.
+
+(* `members s`, the list the oracle compares with: ascending, exactly the in-window set bits *)
+Theorem C14_numset_members_spec : forall s,
+  StronglySorted Z.lt (members s) /\
+  forall m, In m (members s) <->
+            ns_base s <= m < ns_base s + ns_bits s /\ ns_bit (ns_words s) (m - ns_base s) = true.
+Proof. exact (fun s => conj (members_sorted s) (members_In s)). Qed.
+
+(* the parts survive the wire: in-range parts with all the words present are accepted iff
+   numBits <= 256, and base, numBits and the needed words come back (extra words are not written) *)
+Theorem C14_numset_wire_parts : forall k e base bits words extra,
+  raw_inrange k base bits words extra ->
+  (bits <= 256 -> wcount bits <= len words ->
+   dec_ns k e (enc_ns k e (NS base bits words) ++ extra) =
+   Some (NS base bits (firstn (Z.to_nat (wcount bits)) words), extra)) /\
+  (256 < bits -> dec_ns k e (enc_ns k e (NS base bits words) ++ extra) = None).
+Proof. exact (fun k e base bits words extra H => conj (raw_accept k e base bits words extra H) (raw_reject k e base bits words extra H)). Qed.
+
+(* non-vacuity: numBits 25, members 10..20, all seven padding bits set *)
+Example C14_numset_dirty_padding :
+  let s := NS 10 25 [4292870271] in
+  ns_accepted s /\ ns_collect KSN s = IOk [10; 11; 12; 13; 14; 15; 16; 17; 18; 19; 20] /\
+  ns_collect_rev KSN s = IOk [20; 19; 18; 17; 16; 15; 14; 13; 12; 11; 10] /\
+  ns_is_empty KSN s = Some false /\
+  ns_is_empty KFN (NS 1000 5 [134217727]) = Some true /\ ns_collect KFN (NS 1000 5 [134217727]) = IOk [].
+Proof. exact raw_dirty_padding. Qed.
+Print Assumptions C14_numset_iter_exact.
+Print Assumptions C14_numset_iter_rev.
+Print Assumptions C14_numset_is_empty.
 
 (* ---- re-serialisation --------------------------------------------------------------------- *)
 Theorem C14_reserialise : forall e m m',
